@@ -23,8 +23,11 @@ def run(repo: Repo, chk: Check):
                       "replaced by a tail call", floor=2)
     chk.rule("R07.d", "a function is emitted as a region with a final 'j ra' exactly when it is not inlined: all sites evaluate the same "
                       "predicate (inline_functions AND called once) or its negation (shared with R02.c)", floor=8)
-    from .c02 import r02c
+    from .c02 import r02c, r02e
     chk.guarded(r02c, repo, chk, "R07.d")
+    chk.rule("R07.e", "a call is turned into a tail jump only if neither the function being compiled nor the callee is inlined, and the "
+                      "final 'j ra' is dropped exactly then (shared with R02.e): otherwise code pasted into the main region jumps into a function with a stale ra", floor=3)
+    chk.guarded(r02e, repo, chk, "R07.e")
     g = repo.mod("generate_code")
     qual = "CompilerPassGatherCode.run"
     fn = g.func(qual)
@@ -117,6 +120,18 @@ def run(repo: Repo, chk: Check):
             continue
         conj = par.test.values if isinstance(par.test, ast.BoolOp) and isinstance(par.test.op, ast.And) else [par.test]
         tid = live_ids(ccfg, par.test)[0]
+        # the 'not inlined' half of the condition must speak about the function being compiled, on every path
+        from ..origin import Origin
+        o = Origin(cf)
+        for c in conj:
+            for a in ast.walk(c):
+                if isinstance(a, ast.Attribute) and a.attr in ("is_read", "can_inline"):
+                    tg = o.tags(a.value, tid)
+                    own = bool(tg) and all(x.startswith("param:") for x in tg)
+                    chk.judge("R07.c", "generate_code:compile_function:the final 'j ra' is decided by the call count of the function being compiled", own,
+                              f"the condition of the final 'j ra' reads {norm(a)}, and on some path {norm(a.value)} is not the symbol of the function being compiled "
+                              f"(it derives from {sorted(tg)}): the function can lose its 'j ra' because of another function's call count and fall into the next region",
+                              {"origins": sorted(tg)}, wherec)
         # names: the tail-call flag and predicates about early returns
         for c in conj:
             names = [n.id for n in ast.walk(c) if isinstance(n, ast.Name)]
